@@ -13,6 +13,9 @@ import (
 
 	"github.com/brutella/hc/tlv8"
 
+	"sync/atomic"
+	"time"
+
 	"verif/refctl"
 	"verif/vf"
 )
@@ -25,7 +28,11 @@ type cause struct {
 }
 
 func hcMarshal(v reflect.Value) (b []byte, err error, pan string) {
-	p, text := vf.Recover(func() { b, err = tlv8.Marshal(v.Interface()) })
+	hung, p, text := vf.RecoverWithin(callWatchdog, func() { b, err = tlv8.Marshal(v.Interface()) })
+	if hung {
+		pan = hangText
+		noteHang()
+	}
 	if p {
 		pan = text
 	}
@@ -34,7 +41,12 @@ func hcMarshal(v reflect.Value) (b []byte, err error, pan string) {
 
 func hcUnmarshal(data []byte, t reflect.Type) (out reflect.Value, err error, pan string) {
 	ptr := reflect.New(t)
-	p, text := vf.Recover(func() { err = tlv8.Unmarshal(data, ptr.Interface()) })
+	hung, p, text := vf.RecoverWithin(callWatchdog, func() { err = tlv8.Unmarshal(data, ptr.Interface()) })
+	if hung {
+		// the abandoned goroutine may still write to ptr: hand out a fresh zero value
+		noteHang()
+		return reflect.New(t).Elem(), nil, hangText
+	}
 	if p {
 		pan = text
 	}
@@ -74,7 +86,33 @@ func firstLine(s string) string {
 	return s
 }
 
-func panicSite(text string) string { return vf.PanicSite(text, "brutella/hc") }
+func panicSite(text string) string {
+	if text == hangText {
+		return "does-not-return"
+	}
+	return vf.PanicSite(text, "brutella/hc")
+}
+
+// callWatchdog bounds one Marshal / Unmarshal call: microseconds are expected, so 20 s is non-termination.
+const callWatchdog = 20 * time.Second
+const hangText = "the call did not return within 20s (abandoned)"
+
+var hangCount int32
+
+// noteHang ends the process after a few abandoned calls (each keeps a core busy); the parent check script maps
+// the exit status, the violation itself is recorded by the caller through the usual panic path.
+func noteHang() {
+	if atomic.AddInt32(&hangCount, 1) == 8 {
+		go func() {
+			time.Sleep(2 * time.Second)
+			if finishHook != nil {
+				finishHook()
+			}
+		}()
+	}
+}
+
+var finishHook func()
 
 func reversed(b []byte) []byte {
 	o := make([]byte, len(b))
